@@ -45,7 +45,7 @@ static const cfg_t cfgs[] = {
       C_JOIN, NOH, O_TJ, 0, -1, 0 },
     { "T@0 join ULT@1 ret", 1, J_TASK, 0, T_ULT, 1, B_RET, C_JOIN, NOH, O_TJ,
       0, -1, 0 },
-    { "X task_free TASK@1", 1, J_EXT, 0, T_TASK, 1, B_RET, C_TFREE, NOH, O_TJ,
+    { "P task_free TASK@1", 1, J_PRIM, 0, T_TASK, 1, B_RET, C_TFREE, NOH, O_TJ,
       0, -1, 0 },
     { "X join ULT@1 cancelled by P", 1, J_EXT, 0, T_ULT, 1, B_CANCEL, C_JOIN,
       H_PRIM, O_TJ, 0, -1, 0 },
@@ -61,8 +61,7 @@ static const cfg_t cfgs[] = {
       NOH, O_TJ, 0, -1, 0 },
     { "U@0 join finished ULT@0 (seq)", 1, J_SAME, 0, T_ULT, 0, B_RET, C_JOIN,
       NOH, O_TJ, 0, -1, 0 },
-    { "X join ULT@1 after TERMINATED seen", 1, J_EXT, 0, T_ULT, 1, B_RET,
-      C_JOIN, NOH, O_TJ, 0, -1, 1 },
+
     /* ---- thorough tier ------------------------------------------------- */
     { "U@0 join ULT@0 joiner first (seq)", 0, J_SAME, 0, T_ULT, 0, B_YRET,
       C_JOIN, NOH, O_JT, 0, -1, 0 },
@@ -108,8 +107,12 @@ static const cfg_t cfgs[] = {
       H_EXT, O_TJ, 0, -1, 0 },
     { "P join_many ULT@1+ULT@1", 0, J_PRIM, 0, T_ULT, 1, B_RET, C_JOIN_MANY,
       NOH, O_TJ, 0, 1, 0 },
-    { "P task_free TASK@1", 0, J_PRIM, 0, T_TASK, 1, B_RET, C_TFREE, NOH, O_TJ,
+    { "X task_free TASK@1", 0, J_EXT, 0, T_TASK, 1, B_RET, C_TFREE, NOH, O_TJ,
       0, -1, 0 },
+    { "X join ULT@1 after TERMINATED seen", 0, J_EXT, 0, T_ULT, 1, B_RET,
+      C_JOIN, NOH, O_TJ, 0, -1, 1 },
+    { "X free ULT@1 malloc-stack cancelled by P", 0, J_EXT, 0, T_ULT, 1,
+      B_CANCEL, C_FREE, H_PRIM, O_TJ, 1, -1, 0 },
     { "P free ULT@1 malloc-stack yield-ret", 0, J_PRIM, 0, T_ULT, 1, B_YRET,
       C_FREE, NOH, O_TJ, 1, -1, 0 },
     { "U@0 free ULT@1 ret", 0, J_OTHER, 0, T_ULT, 1, B_RET, C_FREE, NOH, O_TJ,
@@ -163,6 +166,9 @@ static int started[MAXT];          /* hooked */
 static int payload[MAXT], done[MAXT]; /* plain: the target's last stores */
 static int third_ran;
 static int jdone; /* hooked: the joiner finished all its checks */
+/* white box: request word of a descriptor at the return of its free */
+static ABTI_thread *freed_p[MAXT];
+static uint32_t freed_req[MAXT];
 
 /* ------------------------------------------------------------- target */
 static int beh_of(int k) { return k == 0 ? C->beh : B_RET; }
@@ -283,6 +289,8 @@ static void check_freed(int k, ABTI_thread *p, int was_malloc, const char *what)
                     "%s released target %d while its state was %d, not "
                     "TERMINATED",
                     what, k, s);
+        freed_p[k] = p;
+        freed_req[k] = ABTD_atomic_relaxed_load_uint32(&p->request);
     }
 }
 
@@ -488,10 +496,25 @@ static void scenario(int cfg)
         OK(ABT_eventual_free(&ev));
     if (C->mstack)
         OK(ABT_thread_attr_free(&attr));
-    for (int i = 1; i < nes; i++) {
+    for (int i = 1; i < nes; i++)
         OK(ABT_xstream_join(es[i]));
-        OK(ABT_xstream_free(&es[i]));
+    /* all streams are quiet: nothing may have written to a descriptor after
+     * it was released (no unit is created after the targets are freed, so the
+     * pool element has not been handed out again) */
+    for (int k = 0; k < ntargets; k++) {
+        ABTI_thread *p = freed_p[k];
+        if (!p || !abtmc_ledger_find(p, NULL, NULL))
+            continue;
+        uint32_t r = ABTD_atomic_relaxed_load_uint32(&p->request);
+        int s = ABTD_atomic_relaxed_load_int(&p->state);
+        abtmc_check(r == freed_req[k] && s == ABT_THREAD_STATE_TERMINATED,
+                    "touched_after_free",
+                    "the descriptor of target %d was modified after it had "
+                    "been released (request %#x -> %#x, state %d)",
+                    k, (unsigned)freed_req[k], (unsigned)r, s);
     }
+    for (int i = 1; i < nes; i++)
+        OK(ABT_xstream_free(&es[i]));
     h_finalize();
     abtmc_check(abtmc_ledger_live() == 0, "leak",
                 "%ld blocks allocated by libabt still live after ABT_finalize",
